@@ -79,11 +79,27 @@ def run(tier, seed, rep):
             n = rng.randint(1, 10)
             cands.append(fieldless(rng, did, n, [1 if rng.random() < 0.25 else 0 for _ in range(n)]))
             did += 1
+        # COUNT, iter and VariantNames also exist for enums with payloads (no VariantArray there): one name per DECLARED variant, whatever
+        # its kind and attributes (default catch-all, transparent, disabled, an explicit empty name)
+        from ..defs import field
+        payload = [
+            enum(0, [variant("Red"), variant("Other", "tuple", [field("String")], default=True), variant("Stop", ser=["stop"]), variant("Last", "named", [field("u8", "n")])]),
+            enum(0, [variant("Other", "named", [field("String", "text")], default=True, ts="fallback"), variant("Off", dis=True), variant("Unset", ser=[""]), variant("Z", "tuple", [field("u8"), field("bool")])], style="snake_case"),
+            enum(0, [variant("A", "tuple", [field("u8")], dis=True), variant("Other", "tuple", [field("boxstr")], default=True, dis=True), variant("B", ts="")], prefix="p."),
+            enum(0, [variant("Inner", "tuple", [field("sstr")], transp=True), variant("Mid"), variant("Inner2", "named", [field("sstr", "s")], transp=True, ser=["named"])], style="kebab-case"),
+        ]
+        for E in payload:
+            E = dict(E, id=did, name="E%d" % did, namecp=core.cp("E%d" % did), payload=True)
+            cands.append(E); did += 1
+        for k in range(sz["sampled"] // 3):
+            E = SC.names_def(rng, did)
+            E["payload"] = True
+            cands.append(E); did += 1
         facts = pipe.domain_pass(cands, PROP)
         defs = [E for E in cands if facts[E["id"]]["wfn"] and facts[E["id"]]["bf"]]
         core.log("[C08] %d candidates, %d in the documented domain" % (len(cands), len(defs)))
         by_id = {E["id"]: E for E in defs}
-        files = {E["id"]: IG.lists_module(E) for E in defs}
+        files = {E["id"]: IG.lists_module(E, array=not E.get("payload")) for E in defs}
         exe, failed = pipe.build_corpus("c08", files)
         report_compile_failures(rep, failed, by_id, files, "EnumCount + VariantNames + VariantArray + EnumIter")
         evs = pipe.run_driver(exe, PROP, {}, seed)
@@ -102,7 +118,7 @@ def run(tier, seed, rep):
                        "serialize/to_string/prefix/serialize_all; one event per definition with COUNT, iter().count(), the iterated "
                        "declaration indices, VariantNames::VARIANTS and the declaration indices of VariantArray::VARIANTS; TLC checks each "
                        "against its statement and the cross relations; distinct_nontrivial = definitions with at least one variant" % sz["full_masks"])
-    rep.cov["rule"] += ' + a 280-variant enum'
+    rep.cov["rule"] += ' + a 280-variant enum + enums with payloads (default catch-all, transparent, generic; COUNT / iter / VariantNames only)'
     rep.cov["rule"] += COMMON_DIMENSIONS
     rep.cov["samples"] = [dict(def_=e["def"], count=e["count"], iter=e["iter"], array=e["array"], names=[core.uncp(x) for x in e["names"]]) for e in evs[30:33]]
     rep.assumptions += ["rustc/cargo, the 1:1 printer and the generated decl_index are trusted"]
